@@ -153,6 +153,11 @@ def run_job(job, kind, shape):
             job.prove('abserr>=0[%d]' % i, a >= 0, p.conds(), dict(key='C13:negative-abserr', kind='real', idx=i))
             job.prove('abserr>=|res-v2|[%d]' % i, z3.And(a >= r - sn.lift(e2[i]), a >= sn.lift(e2[i]) - r), p.conds(),
                       dict(key='C13:abserr-below-correction', kind='real', idx=i))
+            # the estimate contains the spread of the three terms it was computed from (QUADPACK: err1 + err2 + ...), also on
+            # the fallback branch: a raw term is never returned with a rounding-level estimate while the terms still move
+            e0i, e1i = sn.lift(cm.flat_list(ins[0])[i]), sn.lift(cm.flat_list(ins[1])[i])
+            spread = cm.zabs(sn.lift(e2[i]) - e1i) + cm.zabs(e1i - e0i)
+            job.prove('abserr>=|v2-v1|+|v1-v0|[%d]' % i, a >= spread, p.conds(), dict(key='C13:abserr-below-spread', kind='real', idx=i))
             allowed = {str(sn.lift(cm.flat_list(ins[k])[i])) for k in range(3)}
             used = sn.term_vars(z3.simplify(r)) | sn.term_vars(z3.simplify(a))
             if not job.confirm('elementwise[%d]' % i, used <= allowed):
@@ -392,6 +397,12 @@ def replay(cex):
             return True, 'dea3 modified its inputs'
         if np.any(e < 0) or np.any(e < np.abs(r - arrs[2]) * (1 - 1e-12)):
             return True, 'dea3%r -> result %r abserr %r (negative or below |result - v2|)' % (arrs, r, e)
+        for cand in [arrs] + [[np.full(shape, v) for v in t] for t in ((-1.0, 0.0, 1.0), (2.0, 3.0, 4.0), (1.0, 1.0, 2.0), (5.0, 1e-9, -5.0))]:
+            with cm.quiet():
+                rc, ec = ex.dea3(*cand)
+            sp = np.abs(cand[2] - cand[1]) + np.abs(cand[1] - cand[0])
+            if np.any(ec < sp * (1 - 1e-12)):
+                return True, 'dea3%r -> result %r with abserr %r, below the spread |v2-v1|+|v1-v0| = %r of the terms' % ([c.ravel()[0] for c in cand], rc.ravel()[0], ec.ravel()[0], sp.ravel()[0])
         if kind == 'elementwise':
             for i in range(r.size):
                 arrs2 = [a.copy() for a in keep]
